@@ -24,8 +24,10 @@ pub enum Fam {
     Eioa,
 }
 
-/// never print more window slots than this (only matters when `size` is corrupted)
-const WINDOW_CAP: usize = 4096;
+/// windows up to this size are printed in full (PROTOCOL.md)
+const WINDOW_FULL: usize = 2048;
+/// number of slots printed at either end of a longer window
+const WINDOW_EDGE: usize = 4;
 /// largest capacity for which capacity-proportional work (fill, junk, views) is done on kind z
 const SMALL: usize = 4096;
 
@@ -144,13 +146,14 @@ fn slot_at(start: usize, i: usize, n: usize) -> usize {
     ((start as u128 + i as u128) % n as u128) as usize
 }
 
-/// the `size` slots `(start+i) % n` as `slot:id:val`, read raw
+/// the `size` slots `(start+i) % n` as `slot:id:val`, read raw.  A window of more than
+/// `WINDOW_FULL` slots is abbreviated: first `WINDOW_EDGE` slots, `...`, last `WINDOW_EDGE` slots.
 pub fn push_window<T: Elem>(out: &mut String, base: *const T, n: usize, start: usize, size: usize) {
     if n == 0 {
         return;
     }
-    for i in 0..size.min(WINDOW_CAP) {
-        if i > 0 {
+    let one = |out: &mut String, i: usize, first: bool| {
+        if !first {
             out.push(' ');
         }
         let slot = slot_at(start, i, n);
@@ -161,6 +164,19 @@ pub fn push_window<T: Elem>(out: &mut String, base: *const T, n: usize, start: u
         };
         let (id, val) = unsafe { T::raw(p) };
         let _ = write!(out, "{}:{}:{}", slot, id, val);
+    };
+    if size <= WINDOW_FULL {
+        for i in 0..size {
+            one(out, i, i == 0);
+        }
+    } else {
+        for i in 0..WINDOW_EDGE {
+            one(out, i, i == 0);
+        }
+        out.push_str(" ...");
+        for k in 0..WINDOW_EDGE {
+            one(out, size - WINDOW_EDGE + k, false);
+        }
     }
 }
 
@@ -688,6 +704,23 @@ pub fn run_op<const N: usize, T: Elem>(
         };
     }
 
+    // operations whose cost (in the crate or in the harness' printing) is proportional to the
+    // length are not run on a zero-sized buffer holding more than SMALL elements (`fill_all`)
+    macro_rules! short_only {
+        () => {
+            if size_of::<T>() == 0 && buf.verif_raw().1 > SMALL {
+                return OpRes::Bare;
+            }
+        };
+    }
+    macro_rules! short_script {
+        ($s:expr) => {
+            if $s.contains('C') || $s.contains('D') {
+                short_only!();
+            }
+        };
+    }
+
     let op = toks.first().copied().unwrap_or("");
     let argc = toks.len().saturating_sub(1);
 
@@ -807,6 +840,7 @@ pub fn run_op<const N: usize, T: Elem>(
 
         // ---------------------------------------------------------------- views
         ("make_contiguous", 0) => {
+            short_only!();
             let r = guard(|| {
                 let s = cc!(buf.make_contiguous());
                 (s.as_ptr(), s.len())
@@ -873,6 +907,7 @@ pub fn run_op<const N: usize, T: Elem>(
             done!(r, |()| ());
         }
         ("as_slices", 0) => {
+            short_only!();
             let r = guard(|| {
                 let (a, b) = cc!(buf.as_slices());
                 (a.as_ptr(), a.len(), b.as_ptr(), b.len())
@@ -885,6 +920,7 @@ pub fn run_op<const N: usize, T: Elem>(
             });
         }
         ("as_mut_slices", 0) => {
+            short_only!();
             let cx = Cx::of(buf);
             let r = guard(|| {
                 let (a, b) = cc!(buf.as_mut_slices());
@@ -903,6 +939,7 @@ pub fn run_op<const N: usize, T: Elem>(
 
         // ---------------------------------------------------------------- borrowing iterators
         ("iter", 1) => {
+            short_script!(toks[1]);
             let cx = Cx::of(buf);
             let r = guard(|| {
                 let it = cc!(buf.iter());
@@ -911,6 +948,7 @@ pub fn run_op<const N: usize, T: Elem>(
             done!(r, |()| ());
         }
         ("iter_mut", 1) => {
+            short_script!(toks[1]);
             let cx = Cx::of(buf);
             let r = guard(|| {
                 let it = cc!(buf.iter_mut());
@@ -919,6 +957,7 @@ pub fn run_op<const N: usize, T: Elem>(
             done!(r, |()| ());
         }
         ("range", 3) => {
+            short_script!(toks[3]);
             let sb = bound!(toks[1]);
             let eb = bound!(toks[2]);
             let cx = Cx::of(buf);
@@ -929,6 +968,7 @@ pub fn run_op<const N: usize, T: Elem>(
             done!(r, |()| ());
         }
         ("range_mut", 3) => {
+            short_script!(toks[3]);
             let sb = bound!(toks[1]);
             let eb = bound!(toks[2]);
             let cx = Cx::of(buf);
@@ -949,6 +989,7 @@ pub fn run_op<const N: usize, T: Elem>(
 
         // ---------------------------------------------------------------- owning iterators
         ("drain", 4) => {
+            short_script!(toks[3]);
             let sb = bound!(toks[1]);
             let eb = bound!(toks[2]);
             let script = toks[3];
@@ -965,6 +1006,7 @@ pub fn run_op<const N: usize, T: Elem>(
             done!(r, |()| ());
         }
         ("into_iter", 1) => {
+            short_script!(toks[1]);
             let b = mem::replace(buf, CircularBuffer::new());
             let r = guard(|| {
                 let mut it = cc!(b.into_iter());
@@ -976,6 +1018,7 @@ pub fn run_op<const N: usize, T: Elem>(
 
         // ---------------------------------------------------------------- cloning
         ("clone", 0) => {
+            short_only!();
             let r = guard(|| {
                 let c = cc!(buf.clone());
                 let (start, size, p) = c.verif_raw();
@@ -999,6 +1042,7 @@ pub fn run_op<const N: usize, T: Elem>(
             done!(r, |()| ret.push('-'));
         }
         ("to_vec", 0) => {
+            short_only!();
             let r = guard(|| {
                 let v = cc!(buf.to_vec());
                 ret.push('[');
@@ -1091,6 +1135,7 @@ pub fn run_op<const N: usize, T: Elem>(
             });
         }
         ("hash", 0) => {
+            short_only!();
             let r = guard(|| {
                 let mut h = RecHasher { words: Vec::new() };
                 cc!(buf.hash(&mut h));
@@ -1108,6 +1153,7 @@ pub fn run_op<const N: usize, T: Elem>(
             });
         }
         ("debug", 0) => {
+            short_only!();
             let r = guard(|| {
                 // allocations of `format!` are the formatter's, not the crate's: not counted
                 let s = format!("{:?}", buf);
@@ -1148,6 +1194,22 @@ pub fn run_op<const N: usize, T: Elem>(
                 cc!(drop(b));
             });
             done!(r, |()| ());
+        }
+        ("fill_all", 0) => {
+            // kind u only: a completely full buffer, built in O(1)
+            match guard(|| cc!(T::full_buffer::<N>())) {
+                Ok(None) => return OpRes::Bare,
+                Ok(Some(nb)) => {
+                    let old = Quiet::new(mem::replace(buf, nb));
+                    drop(old);
+                    ret.push('-');
+                }
+                Err(()) => {
+                    let old = Quiet::new(mem::replace(buf, CircularBuffer::new()));
+                    drop(old);
+                    panic_ret(ret);
+                }
+            }
         }
         ("junk", 1) => {
             junk(buf, toks[1]);
